@@ -142,6 +142,143 @@ def klass(obs, model_idx, n):
     return obs[0]
 
 
+# ------------------------------------------------------------------ context axis
+# every trapping operation in every syntactic position: the trap is an effect, so it must survive "the value is not used"
+INT_CTX = {
+    'stmt':        '    E\n',
+    'let':         '    let v: int = E\n    set w (+ w v)\n',
+    'set':         '    set w E\n',
+    'arg':         '    (println E)\n',
+    'arg_ignored': '    (ignore E)\n',
+    'arg_ignored_let': '    let z: int = (ignore E)\n    set w (+ w z)\n',
+    'operand':     '    set w (+ 1 E)\n',
+    'cond':        '    if (== E 12345) { (println "x") }\n',
+    'return':      '    set w (h a i)\n',
+    'and':         '    if (and true (== E 12345)) { (println "x") }\n',
+    'or':          '    if (or false (== E 12345)) { (println "x") }\n',
+    'for_bound':   '    for j in (range 0 E) { set w (+ w 0) }\n',
+}
+ARR_CTX = {
+    'stmt': '    E\n',
+    'set':  '    set a E\n',
+    'let':  '    let b: array<int> = E\n    set w (+ w (array_length b))\n',
+    'arg':  '    (println (array_length E))\n',
+}
+VOID_CTX = {
+    'stmt':    '    E\n',
+    'if_body': '    if (== 1 1) { E }\n',
+    'for_body': '    for j in (range 0 1) { E }\n',
+}
+CTX_OPS = {   # op -> (model kind, expression over a and i, contexts)
+    'at':        ('get', '(at a i)', INT_CTX),
+    'array_get': ('get', '(array_get a i)', INT_CTX),
+    'array_pop': ('pop', '(array_pop a)', INT_CTX),
+    'array_remove_at': ('remove', '(array_remove_at a i)', ARR_CTX),
+    'array_set': ('set', '(array_set a i 99)', VOID_CTX),
+}
+CTX_HELPERS = 'fn ignore(x: int) -> int {\n    return 0\n}\n'
+
+
+def ctx_program(op, ctx, n, interp=False):
+    kind, expr, ctxs = CTX_OPS[op]
+    body = ctxs[ctx].replace('E', expr)
+    helper = CTX_HELPERS
+    if ctx == 'return':
+        helper += 'fn h(a0: array<int>, i0: int) -> int {\n    let mut a: array<int> = a0\n    let i: int = i0\n    return %s\n}\n' % expr
+    if interp:
+        arr = ('    let mut a: array<int> = %s\n' % literal(n)) if op in ('at', 'array_get', 'array_set') else ('    let mut a: array<int> = []\n' + dyn(n))
+        return (helper + 'fn f(i: int) -> int {\n' + arr + '    let mut w: int = 0\n' + body + '    return (+ 7 (* 0 w))\n}\n'
+                'shadow f {\n    assert (!= (f (string_to_int (getenv "C08_IDX"))) 7)\n}\nfn main() -> int { return 0 }\n')
+    return (helper + 'fn main() -> int {\n    let i: int = (string_to_int (getenv "C08_IDX"))\n    let mut a: array<int> = []\n' + pushes(n) +
+            '    let mut w: int = 0\n    (println "B")\n' + body + '    (println "A")\n    return (* 0 w)\n}\n')
+
+
+def ctx_cases():
+    out = []
+    for op, (kind, expr, ctxs) in CTX_OPS.items():
+        for ctx in ctxs:
+            if op == 'array_pop':
+                out += [(op, ctx, 0, 0), (op, ctx, 2, 0)]
+            else:
+                out += [(op, ctx, 3, i) for i in (0, 2, 3, -1, 2**32 + 1)]
+    return out
+
+
+def run_ctx(ck, b, ba, ref, cfgbits, scratch):
+    """the context stream: trap vs continue per (operation, syntactic context, length, index, engine)"""
+    cases = ctx_cases()
+    engines = ('vm', 'vmfile', 'native', 'interp')
+    srcs = {}
+    for op, ctx, n, _ in cases:
+        if (op, ctx, n) in srcs: continue
+        p = os.path.join(scratch, 'x_%s_%s_%d.nano' % (op, ctx, n)); open(p, 'w').write(ctx_program(op, ctx, n))
+        q = os.path.join(scratch, 'xi_%s_%s_%d.nano' % (op, ctx, n)); open(q, 'w').write(ctx_program(op, ctx, n, interp=True))
+        srcs[(op, ctx, n)] = (p, q)
+
+    def prep(key):
+        p, q = srcs[key]
+        nat = p[:-5] + '.bin'; nvm = p[:-5] + '.nvm'
+        r1 = vlib.sh([b.bin('nanoc'), p, '-o', nat], timeout=180, cwd=scratch)
+        r2 = vlib.sh([b.bin('nano_virt'), p, '--emit-nvm', '-o', nvm], timeout=60, cwd=scratch)
+        return key, (nat if r1[0] == 0 and os.path.exists(nat) else None), (nvm if r2[0] == 0 and os.path.exists(nvm) else None), (r1[1] + r1[2] + r2[2])[-300:]
+    with ThreadPoolExecutor(16) as ex:
+        built = {k: (nat, nvm, log) for k, nat, nvm, log in ex.map(prep, list(srcs))}
+    for k, (nat, nvm, log) in built.items():
+        if nat is None or nvm is None:
+            ck.fail('c08:ctx:compile:%s:%s' % (k[0], k[1]), 'a generated context program no longer compiles (%s): %s' % ('native' if nat is None else 'emit-nvm', log),
+                    dict(program=open(srcs[k][0]).read(), correspondence='machinery'), tie=True)
+    # the compile-time interpreter has no builtin `array_get` at all ("Error: Undefined function 'array_get'", evaluation goes on with void,
+    # in range or not): not a bounds question, left out of this stream for that engine (reported in the evidence)
+    jobs = [(e, op, ctx, n, idx) for (op, ctx, n, idx) in cases for e in engines if not (e == 'interp' and op == 'array_get')]
+    ck.extra['context_stream_excluded'] = ['interp x array_get: builtin not implemented by the interpreter (Undefined function, continues with void)']
+    mlines = ['acc %s %s %s %x %s' % (cfgbits, 'vm' if e == 'vmfile' else e, CTX_OPS[op][0], n, zhex(idx)) for (e, op, ctx, n, idx) in jobs]
+    model = [parse_model(a) for a in vlib.run_lines(ref, mlines)]
+
+    def one(job):
+        e, op, ctx, n, idx = job
+        env = dict(ENVB, C08_IDX=str(idx))
+        p, q = srcs[(op, ctx, n)]; nat, nvm, _ = built[(op, ctx, n)]
+        if e == 'interp':
+            ob = os.path.join(scratch, 'xb_%s' % hashlib.sha1(repr(job).encode()).hexdigest()[:10])
+            rc, so, se = vlib.sh([b.bin('nanoc'), q, '-o', ob], timeout=180, env=env, cwd=scratch)
+            if os.path.exists(ob): os.unlink(ob)
+            txt = so + se
+            if 'Runtime Error' in txt and rc != 0: return 'trap'
+            if 'Shadow test' in txt and 'FAILED' in txt: return 'continue'
+            return 'other rc=%s %s' % (rc, txt[-100:])
+        if e == 'vm':
+            rc, so, se = vlib.sh([ba.bin('nano_virt'), p, '--run'], timeout=60, env=env, cwd=scratch)
+        elif e == 'vmfile':
+            if nvm is None: return 'other no nvm'
+            rc, so, se = vlib.sh([ba.bin('nano_vm'), nvm], timeout=60, env=env, cwd=scratch)
+        else:
+            if nat is None: return 'other no binary'
+            rc, so, se = vlib.sh([nat], timeout=30, env=env, cwd=scratch)
+        if 'AddressSanitizer' in se or re.search(r'\.[ch]:\d+:\d+: runtime error:', se): return 'other sanitizer ' + se[:120]
+        lines = so.split('\n')
+        if rc != 0 and 'B' in lines and 'A' not in lines: return 'trap'
+        if rc == 0 and 'A' in lines: return 'continue'
+        return 'other rc=%s out=%r' % (rc, so[:60])
+    with ThreadPoolExecutor(16) as ex:
+        obs = list(ex.map(one, jobs))
+    dist = {}
+    for (e, op, ctx, n, idx), (macc, legit), ob in zip(jobs, model, obs):
+        key = 'ctx:%s:%s:%s:len=%d:idx=%d' % (e, op, ctx, n, idx)
+        ck.count(key, nontrivial=not legit)
+        d = dist.setdefault(e, {}); lab = ('legit-' if legit else 'oob-') + ob.split()[0]; d[lab] = d.get(lab, 0) + 1
+        want = 'trap' if macc[0] == 'trap' else 'continue'
+        prog = ctx_program(op, ctx, n, interp=(e == 'interp'))
+        if ob != want:
+            ck.fail('c08:diff:' + key, 'engine %s, %s in context "%s" on length %d at index %d: observed %s, model %s' % (e, op, ctx, n, idx, ob, want),
+                    dict(engine=e, access=op, context=ctx, length=n, index=idx, expected_model=want, observed_impl=ob, cfg=cfgbits, program=prog,
+                         env=dict(C08_IDX=str(idx)), correspondence='engine run vs nvref_c08 (context stream)'))
+        if not legit and ob != 'trap':
+            ck.fail('c08:ctx:%s:%s:%s' % (e, op, ctx), '%s: %s in context "%s" at index %d of a length-%d array does not stop the program (%s)' % (e, op, ctx, idx, n, ob),
+                    dict(engine=e, access=op, context=ctx, length=n, index=idx, observed_impl=ob, expected='exit != 0 and no statement after the access',
+                         program=prog, env=dict(C08_IDX=str(idx))))
+    ck.extra['context_stream'] = dict(cases=len(jobs), contexts=sorted(set(INT_CTX) | set(ARR_CTX) | set(VOID_CTX)), operations=sorted(CTX_OPS), engines=list(engines), outcomes=dist)
+
+
 def run(ck):
     b = ck.build('plain'); ba = ck.build('asan')
     ck.gen(['gen_isa', 'gen_c13cfg'])
@@ -231,6 +368,7 @@ def run(ck):
         ck.extra['engine_runs_s'] = round(time.time() - t_start, 1)
         for i in (0, len(cases) // 2, len(cases) - 1):
             ck.sample(dict(case='%s %s len=%d idx=%d' % cases[i], model=list(model[i][0]), observed=list(obs[i])))
+        run_ctx(ck, b, ba, ref, cfgbits, scratch)
         # ---- field / tuple / union index and the repaired-VM witnesses at bytecode level (vm_probe vs the VM model of C13)
         asm = L.Asm(L.load_table()); a = asm
         bc = []
@@ -274,10 +412,45 @@ def run(ck):
                        'the interpreter engine is the shadow-test evaluator of nanoc (static array literals for get/set, dynamic arrays for pop/remove: builtin_array_set refuses dynamic arrays altogether)']
 
 
+def replay_ctx(ck, b, ba, d):
+    e, op, ctx, n, idx = d['engine'], d['access'], d['context'], d['length'], d['index']
+    cfgbits = c13.read_cfg(); ref = ck.nvref('c08')
+    macc, legit = parse_model(vlib.run_lines(ref, ['acc %s %s %s %x %s' % (cfgbits, 'vm' if e == 'vmfile' else e, CTX_OPS[op][0], n, zhex(idx))])[0])
+    want = 'trap' if macc[0] == 'trap' else 'continue'
+    scratch = tempfile.mkdtemp(prefix='c08r_', dir=vlib.BUILD)
+    try:
+        env = dict(ENVB, C08_IDX=str(idx))
+        p = os.path.join(scratch, 'p.nano'); open(p, 'w').write(ctx_program(op, ctx, n, interp=(e == 'interp')))
+        if e == 'interp':
+            rc, so, se = vlib.sh([b.bin('nanoc'), p, '-o', os.path.join(scratch, 'ib')], timeout=180, env=env, cwd=scratch)
+            txt = so + se
+            ob = 'trap' if ('Runtime Error' in txt and rc != 0) else ('continue' if 'FAILED' in txt else 'other rc=%s' % rc)
+        else:
+            if e == 'vm':
+                rc, so, se = vlib.sh([ba.bin('nano_virt'), p, '--run'], timeout=60, env=env, cwd=scratch)
+            elif e == 'vmfile':
+                vlib.sh([b.bin('nano_virt'), p, '--emit-nvm', '-o', os.path.join(scratch, 'p.nvm')], timeout=60, cwd=scratch)
+                rc, so, se = vlib.sh([ba.bin('nano_vm'), os.path.join(scratch, 'p.nvm')], timeout=60, env=env, cwd=scratch)
+            else:
+                vlib.sh([b.bin('nanoc'), p, '-o', os.path.join(scratch, 'n')], timeout=180, cwd=scratch)
+                rc, so, se = vlib.sh([os.path.join(scratch, 'n')], timeout=30, env=env, cwd=scratch)
+            print('rc=%s stdout=%r stderr=%r' % (rc, so, se[-300:]))
+            lines = so.split('\n')
+            ob = 'trap' if (rc != 0 and 'A' not in lines) else ('continue' if rc == 0 and 'A' in lines else 'other')
+        print('engine %s, %s in context %s, len=%d idx=%d: observed %s, model %s (%s)' % (e, op, ctx, n, idx, ob, want, 'legit' if legit else 'out of range'))
+        okay = ob == want and (legit or ob == 'trap')
+        print('not reproduced' if okay else 'REPRODUCED')
+        return 0 if okay else 1
+    finally:
+        shutil.rmtree(scratch, ignore_errors=True)
+
+
 def replay(ck, d):
     b = ck.build('plain'); ba = ck.build('asan'); ck.gen(['gen_isa', 'gen_c13cfg'])
     if 'input_hex' in d:
         return c13.replay(ck, d)
+    if 'context' in d:
+        return replay_ctx(ck, b, ba, d)
     e, kind, n, idx = d['engine'], d['access'], d['length'], d['index']
     cfgbits = c13.read_cfg(); ref = ck.nvref('c08')
     macc, legit = parse_model(vlib.run_lines(ref, ['acc %s %s %s %x %s' % (cfgbits, e, kind, n, zhex(idx))])[0])
